@@ -17,6 +17,7 @@ import RotoV.Lemmas.ScopeWitness
 import RotoV.Lemmas.ScopeImports
 import RotoV.Lemmas.ScopeTermination
 import RotoV.Lemmas.ScopeGetFunction
+import RotoV.Lemmas.ScopeNoPanic
 
 namespace RotoV.C13
 open RotoV.Scope
@@ -78,6 +79,30 @@ example : ∃ g0 m0 out, declareModules [] [] Graph.new = .ok (g0, m0) ∧
   ⟨Graph.new, [], _, rfl, rfl⟩
 example (p : Site) : witnessGraph.resolve 5 6 true ≠ .panic p :=
   lookup_total witnessGraph witness_inv.wf witness_inv.iok 5 (by decide) 6 p
+
+/-- **Name resolution cannot crash the compiler.**  For every module list whose
+    parents come before their children (what `FileTree::file_spec` and
+    `FileTree::directory` produce) and whose import paths are not empty (what
+    the parser produces), on top of any registered runtime modules: the
+    name-relevant part of `check_module_tree` — `declare_modules`, all import
+    fixpoints at module and block level, every scope it creates — ends in a
+    result or a compile error. None of the `unwrap`s, index operations,
+    `unreachable!`s and `ice!`s on the way (`Site`) is reached and no loop runs
+    forever. -/
+theorem check_module_tree_no_panic (rt ms : List Module) (g0 : Graph) (m0 : List Nat)
+    (h0 : declareModules rt [] Graph.new = .ok (g0, m0))
+    (hpb : ParentsBefore 0 ms) (hok : ∀ m ∈ ms, m.importsOk = true) (p : Site) :
+    checkModuleTree g0 ms ≠ .panic p := by
+  obtain ⟨s0, _, _⟩ := step_declareModules rt [] Graph.new g0 m0 inv_new (by intro x hx; cases hx) h0
+  exact checkModuleTree_noPanic s0.1 ms hpb hok p
+
+example (p : Site) : checkModuleTree Graph.new witnessMods ≠ .panic p := by
+  apply check_module_tree_no_panic [] witnessMods Graph.new [] rfl
+  · intro i m hm q hq
+    rcases i with _ | _ | _ | _ | i <;> simp [witnessMods] at hm
+    all_goals (subst hm; simp at hq)
+    all_goals omega
+  · decide
 
 /-! ## T2 — path_spec -/
 
